@@ -223,7 +223,7 @@ pub fn run(ctx: &mut Ctx) -> (&'static str, String, bool) {
     ctx.merge(p);
 
     // (c) random 6-byte values, and random values over a track-like alphabet
-    let n = ctx.tier.pick(2_000_000u64, 20_000_000u64);
+    let n = ctx.tier.pick(4_000_000u64, 100_000_000u64);
     let base = ctx.rng.fork(14);
     let parts: Vec<(Part, Vec<[u8; 6]>)> = (0u64..16)
         .into_par_iter()
